@@ -1,6 +1,6 @@
 #!/usr/bin/env python3
 """Run every check against every kept seeded change (on scratch copies of /repo) and record which checks fire: seeded/MATRIX.json.
-usage: tools/seed_matrix.py [seed-id ...] [--props C01,C02]"""
+usage: tools/seed_matrix.py [seed-id ...] [--props C01,C02] [--own]   (--own: only the own property check of each seed)"""
 import json, os, subprocess, sys, shutil
 HERE = os.path.dirname(os.path.dirname(os.path.abspath(__file__)))
 sys.path.insert(0, os.path.join(HERE, "rules"))
@@ -9,6 +9,7 @@ from pvrules import selftest, extract
 ALL = ["C%02d" % i for i in range(1, 21)]
 args = [a for a in sys.argv[1:] if not a.startswith("--")]
 props = ALL
+own_only = "--own" in sys.argv[1:]
 for a in sys.argv[1:]:
     if a.startswith("--props"):
         props = a.split("=", 1)[1].split(",")
@@ -24,7 +25,7 @@ for s in seeds:
             print(s, "PATCH DOES NOT APPLY", r.stderr[:200]); continue
         row = matrix.get(s, {})
         share = {}
-        for p in props:
+        for p in ([s.split("-")[0]] if own_only else props):
             try:
                 bad, ctx = selftest.run_on(p, d, share=share)
                 row[p] = sorted({o["key"] for o in bad})[:6]
